@@ -353,6 +353,16 @@ def loop_over_returned_generator(items):
     return out
 
 
+def variable_views(dataset):
+    """`dataset` is an xarray.Dataset: the variable of a name and the data array of that name share attrs, encoding, dtype and dims."""
+    found = []
+    for name, variable in dataset.variables.items():
+        attrs = variable.attrs
+        if attrs.get('axis') == 'Z' and variable.dtype.kind == 'f' and len(variable.dims) == 1:
+            found.append((name, variable.encoding.get('units', '?')))
+    return found
+
+
 def library_keywords_kept(xs):
     """A keyword that is NOT the documented default stays: Fortran order is another array."""
     grid = numpy.asarray(xs).reshape((2, 2), order='F')
@@ -1401,6 +1411,13 @@ HOLDER_C = Holder(dims=(), attrs={'bounds': None, 'start_index': 2}, alpha='p', 
 HOLDER_AB = Holder(alpha=HOLDER_A, beta=HOLDER_B)
 HOLDER_CA = Holder(alpha=HOLDER_C, beta=HOLDER_A)
 
+def _xr_dataset():
+    import xarray
+    ds = xarray.Dataset({'t': (('k',), numpy.arange(3.0), {'axis': 'Z'}), 'u': (('k', 'j'), numpy.zeros((3, 2)), {'axis': 'Z'}), 'n': (('k',), numpy.arange(3), {'axis': 'Z'})})
+    ds['t'].encoding['units'] = 'metres'
+    return ds
+
+
 CASES = {
     'Holder.alias_of_self': [(HOLDER_A, 1), (HOLDER_B, 2)],
     'Holder.nested_alias': [(HOLDER_A, True), (HOLDER_A, False), (HOLDER_C, False)],
@@ -1429,6 +1446,7 @@ CASES = {
     'method_alias': [(HOLDER_A, ['bounds', 'units']), (HOLDER_C, ['bounds', 'start_index'])],
     'method_alias_kept': [(HOLDER_C, ['bounds', 'start_index'])],
     'loop_over_returned_generator': [(['a', None, 'c'],), ([],), ([None],)],
+    'variable_views': [(_xr_dataset(),)],
     'library_keywords_kept': [([1, 2, 3, 4],)],
     'get_test_encoding': [({'k': 1}, 'k'), ({}, 'k'), ({'k': None}, 'k'), ({'k': 0}, 'k')],
     'conditional_element': [(True,), (False,)],
